@@ -77,15 +77,15 @@ pub fn property() -> Property {
                type with a serde(skip) / custom bound / RefCell / HashMap field; distinct = distinct canonical JSON of the case",
         assumptions: util::assumptions(),
         subs: vec![
-            prop_sub("svm_trees_bayes", 900, 22000, |t: Tier| case_strategy(m_super::NKINDS, t.pick(12, 24), 3), m_super::check)
+            prop_sub("text", 1500, 25000, |t: Tier| m_text::strategy(t), m_text::check).require(m_text::REQUIRED),
+            prop_sub("svm_trees_bayes", 4000, 60000, |t: Tier| case_strategy(m_super::NKINDS, t.pick(12, 18), 3), m_super::check)
                 .require(m_super::REQUIRED),
-            prop_sub("clustering", 700, 18000, |t: Tier| case_strategy(m_clustering::NKINDS, t.pick(12, 30), 3), m_clustering::check)
-                .require(m_clustering::REQUIRED),
-            prop_sub("linear_models", 900, 22000, |t: Tier| case_strategy(m_linear::NKINDS, t.pick(12, 30), 4), m_linear::check)
+            prop_sub("linear_models", 6000, 80000, |t: Tier| case_strategy(m_linear::NKINDS, t.pick(12, 30), 4), m_linear::check)
                 .require(m_linear::REQUIRED),
-            prop_sub("transforms", 900, 22000, |t: Tier| case_strategy(m_transform::NKINDS, t.pick(12, 30), 4), m_transform::check)
+            prop_sub("clustering", 5000, 60000, |t: Tier| case_strategy(m_clustering::NKINDS, t.pick(12, 30), 3), m_clustering::check)
+                .require(m_clustering::REQUIRED),
+            prop_sub("transforms", 6000, 80000, |t: Tier| case_strategy(m_transform::NKINDS, t.pick(12, 30), 4), m_transform::check)
                 .require(m_transform::REQUIRED),
-            prop_sub("text", 500, 12000, |t: Tier| m_text::strategy(t), m_text::check).require(m_text::REQUIRED),
             enum_sub("small_types", |t: Tier| m_small::cases(t), m_small::check),
         ],
     }
